@@ -29,6 +29,12 @@ def jobs(tier):
             for g in ['temp', 'cont prefix', 'cont bare', 'run', 'tag A']:
                 js.append({'name': 'build-clean 3 lines %s/%s CRLF' % (f, g), 'harness': (H, 'h_clean'),
                            'params': {'nlines': 3, 'menu_name': 'small', 'fixed': [f, g], 'history': 'build-clean', 'le_choices': (b'\r\n',)}})
+    # erroneous directives (no prefix on a multi-line directive, indented) naming a file the user wrote by hand
+    for hist in ('clean', 'build-clean'):
+        for f in ('temp', 'run', 'write', 'empty'):
+            js.append({'name': '%s prefix-less %s + following lines, hand-written t.tmp' % (hist, f), 'harness': (H, 'h_clean'),
+                       'params': {'nlines': 3 if f != 'temp' else 2, 'menu_name': 'indent', 'fixed': [f], 'history': hist, 'pre_temp_len': 2},
+                       'split': 4})
     from . import project
     js += project.jobs('C07', tier)
     return js
@@ -37,6 +43,8 @@ def jobs(tier):
 BOUNDS = {'quick': 'sources of 1-3 lines over the small menu (incl. erroneous directives, prefix-less multi-line, .txtpp temp target, empty temp), '
                    'histories build->clean, clean alone, build->clean->clean; decoy files next to the source and at near-miss names',
           'thorough': 'all 2-line sources for all histories, 3-line sources with every directive before/after a temp directive, LF and CRLF'}
+from . import project as _project
+BOUNDS = {k: v + _project.bounds_note('C07', k) for k, v in BOUNDS.items()}
 ASSUMPTIONS = ['D1-D12; temp targets are regular files in the source directory', '"never runs a command": no std::process::Command is constructed (process model)']
 COVERS_REQUIRED = ['clean_after_build_ok', 'clean_after_build_failed', 'clean_after_nothing']
 
@@ -53,10 +61,20 @@ def replay(native, v):
         for r in res[(1 if build else 0):]:
             if r['rc'] != 0:
                 bad = True
+            src = ppreplay.conc(d['source'], model)
+            targets = [bytes(t) for t in specpp.temp_targets_all(ConcreteCtx(), tuple(src))]
+            named = b't.tmp' in targets
+            hand = ppreplay.conc(d['pre_temp'], model) if d.get('pre_temp') is not None else None
             if build is None or build['rc'] == 0:
-                if r['output'] is not None or r['temp'] is not None:
+                if r['output'] is not None or (r['temp'] is not None and (hand is None or named)):
                     bad = True
+            if hand is not None and not named and b't.tmp' not in [bytes(a) for a in env.temps]:
+                if r['temp'] != hand:
+                    bad = True              # a hand-written file that no valid temp directive names was deleted / changed
             if 'a.txt.txtpp' not in r['listing'] or 'f' not in r['listing']:
                 bad = True
+            for name, _ in d.get('extra_files', []):
+                if name.startswith('/w/d/') and name[len('/w/d/'):] not in r['listing']:
+                    bad = True          # an unrelated file (decoy / txtpp-named file) next to the source was deleted
         return bad
     return replay_fs(v, steps, judge)
